@@ -4,6 +4,7 @@ import (
 	"fmt"
 	"math/big"
 	"sort"
+	"strings"
 
 	sdk "github.com/cosmos/cosmos-sdk/types"
 
@@ -81,6 +82,18 @@ func (e *c08Env) bidStep() bool {
 	e.rec.Count("lend_auction_bids_attempted", 1)
 	if !res.OK() {
 		e.rec.Count("lend_auction_bid_rejected: "+c08LogClass(res.Log), 1)
+		if strings.Contains(res.Log, "does not exist") {
+			// the closing bid on the auction of an inter-pool borrow whose lend position is gone
+			b, bok := pre.borrows[lv.OriginalVaultId]
+			_, lok := pre.lends[b.LendingID]
+			e.rec.Count("lend_auction_closing_bid_panics_module_account_missing", 1)
+			if bok && !lok && b.BridgedAssetAmount.Amount.IsPositive() {
+				e.rec.Count("lend_auction_closing_bid_panics_bridged_borrow_without_lend_position", 1)
+			}
+			if e.rec.Get("lend_auction_closing_bid_panics_module_account_missing") <= 2 {
+				e.rec.Note(fmt.Sprintf("closing bid panics: %s | borrow found=%v %+v | lend position found=%v | %s", desc, bok, b, lok, c08ShortLog(res.Log)))
+			}
+		}
 		return true
 	}
 	e.rec.Count("lend_auction_bids_ok", 1)
